@@ -39,13 +39,18 @@ fn main() {
     }
     let threads = std::env::var("VERIF_THREADS").ok().and_then(|s| s.parse().ok()).unwrap_or(16usize);
     rayon::ThreadPoolBuilder::new().num_threads(threads).stack_size(64 << 20).build_global().unwrap();
+    if let Some(p) = args.iter().position(|a| a == "--replay") {
+        let Some(file) = args.get(p + 1) else { usage() };
+        std::process::exit(mc::replay::replay_file(file));
+    }
     let code = match args[1].as_str() {
-        "C01" => sweep_cmd(Prop::C01, &["core", "capback", "look", "nest", "nestlook", "utf8", "icase", "lit", "onechar", "named", "mods"]),
-        "C02" => sweep_cmd(Prop::C02, &["core", "capback", "look", "nest", "nestlook", "utf8", "icase", "lit", "onechar", "named", "mods"]),
-        "C03" => sweep_cmd(Prop::C03, &["core", "capback", "look", "nest", "nestlook", "utf8", "icase", "lit", "onechar", "named", "mods"]),
+        "case" => mc::replay::adhoc(&args[2..]),
+        "C01" => sweep_cmd(Prop::C01, &["core", "capback", "vset", "dupref", "look", "nest", "nestlook", "utf8", "icase", "lit", "onechar", "named", "mods"]),
+        "C02" => sweep_cmd(Prop::C02, &["core", "capback", "vset", "dupref", "look", "nest", "nestlook", "utf8", "icase", "lit", "onechar", "named", "mods"]),
+        "C03" => sweep_cmd(Prop::C03, &["core", "capback", "vset", "dupref", "look", "nest", "nestlook", "utf8", "icase", "lit", "onechar", "named", "mods"]),
         "C04" => sweep_cmd(Prop::C04, &["core", "look", "utf8", "icase", "lit", "onechar", "mods"]),
         "C05" => sweep_cmd(Prop::C05, &["nest", "nestlook", "core", "capback", "onechar"]),
-        "C09" => sweep_cmd(Prop::C09, &["core", "capback", "look", "utf8", "lit", "onechar"]),
+        "C09" => sweep_cmd(Prop::C09, &["core", "capback", "vset", "look", "utf8", "lit", "onechar"]),
         "C13" => sweep_cmd(Prop::C13, &["core", "look", "nest", "icase", "lit", "onechar", "mods", "utf8"]),
         "C07" => {
             let mut run = Run::new("C07", "exploration");
